@@ -555,6 +555,14 @@ int SimSource::cb_read(void *buf, size_t n) {
 		if (!err_fired) { err_fired = true; g_sim.counters["fault.S-ERR"]++; }
 		return -1;
 	}
+	if (endless && data && !data->empty()) {
+		// a source that never ends (a device, a peer that keeps talking): the bytes repeat
+		for (size_t j = 0; j < n; ++j) ((uint8_t *) buf)[j] = (*data)[(pos + j) % data->size()];
+		pos += n;
+		bytes += n;
+		g_sim.counters["fault.S-ENDLESS"] = 1;
+		return (int) n;
+	}
 	size_t lim = limit();
 	if (errat >= 0 && (size_t) errat < lim) lim = (size_t) errat;
 	size_t k = pos < lim ? std::min(n, lim - pos) : 0;
@@ -579,6 +587,7 @@ int SimSource::cb_skip(size_t n) {
 		g_sim.counters["fault.S-SKIPFAIL"]++;
 		return 0;
 	}
+	if (endless) { pos += n; return 1; }
 	size_t lim = limit();
 	if (!skippast && pos + n > lim) {
 		// a skip that cannot be satisfied: consume what is there, report failure
